@@ -25,6 +25,11 @@ def runs(tier):
     out.append(dict(name='genop', constants=dict(base, MaxD=2 if q else 3, DimsR={2}, DimsC={2}, RanksS={2, 3},
                                                  Scenarios={'single'}, Ops={'FromArray', 'OrthoTrunc'},
                                                  KindPairs={('real', 'real'), ('complex', 'complex')})))
+    # stale-state histories: a sweep, then an overwriting call that destroys the gauge, then a truncating ortho
+    OWOPS = {'RankTranspose', 'Transpose', 'Conj'}
+    out.append(dict(name='stale3', constants=dict(base, MaxD=3, DimsR={2, 3}, DimsC={1}, RanksS={3}, Scenarios={'single'}, MaxDepth=3,
+                                                  OWs={True}, Lean=True,
+                                                  OpsAt=[{'OrthoLeft', 'OrthoRight', 'Ortho'}, OWOPS, {'OrthoTrunc'}], KindPairs={('real', 'real')})))
     return out
 
 
